@@ -120,9 +120,23 @@ def oracle_norm(comps):
     return out, bool(out) and out[0] == '..'
 
 
-class PathLaws(Bounded):
+class Laws(Bounded):
+    """Law-style contracts: the harness only calls the path API on inputs it has already accepted, so an exception
+    escaping from a law is the API raising on a valid path -- a violation, not a crash of the check."""
+
+    def native_check(self, case, raw):
+        try:
+            return self.laws(case, raw)
+        except Exception as e:      # noqa
+            import traceback
+            where = traceback.extract_tb(e.__traceback__)[-1]
+            return self.fail(case, raw, 'operation_on_a_valid_path_raises', error=repr(e)[:200],
+                             where='%s:%s' % (where.filename.rsplit('/', 1)[-1], where.name))
+
+
+class PathLaws(Laws):
     target = 'bfg9000/platforms/basepath.py::BasePath.__init__'
-    properties = ('C12',)
+    properties = ('C12', 'C05')
     reason = 'laws of posixpath/ntpath/os.path composition (library), both platform flavours: runtime contract only'
 
     def cases(self):
@@ -137,7 +151,7 @@ class PathLaws(Bounded):
                 if t[0] == '.' and any(c.startswith('~') for c in t):
                     yield {'comps': list(t), 'tilde': True}
 
-    def native_check(self, case, raw):
+    def laws(self, case, raw):
         P = PosixPath if case == 'posix' else WindowsPath
         comps = raw['comps']
         s = '/'.join(comps)
@@ -199,7 +213,7 @@ class PathLaws(Bounded):
         return True
 
 
-class InstallChain(Bounded):
+class InstallChain(Laws):
     """string() through chains of Path-valued base directories (bindir under exec_prefix under prefix)."""
     target = 'bfg9000/platforms/basepath.py::BasePath.string'
     properties = ('C12',)
@@ -209,7 +223,7 @@ class InstallChain(Bounded):
         for a, b, c in _it.product(['', 'x', 'x/y'], ['', 'bin', 'lib/z'], ['tool', 'd/t']):
             yield {'prefix': '/usr/local', 'exec': a, 'bindir': b, 'leaf': c}
 
-    def native_check(self, case, raw):
+    def laws(self, case, raw):
         import posixpath
         P = PosixPath
         base = {InstallRoot.prefix: P(raw['prefix'], Root.absolute),
@@ -223,7 +237,7 @@ class InstallChain(Bounded):
         return True
 
 
-class CommonPrefix(Bounded):
+class CommonPrefix(Laws):
     target = 'bfg9000/path.py::commonprefix'
     properties = ('C12',)
     reason = 'min/max over lists of component lists (lexicographic list order): runtime contract only'
@@ -238,7 +252,7 @@ class CommonPrefix(Bounded):
             for t in combos:
                 yield {'paths': ['/'.join(paths[i]) for i in t]}
 
-    def native_check(self, case, raw):
+    def laws(self, case, raw):
         ps = [PosixPath(s, Root.srcdir) for s in raw['paths']]
         splits = [p.split() for p in ps]
         k = 0
@@ -260,13 +274,13 @@ class CommonPrefix(Bounded):
         return True
 
 
-class AbsolutePathLaws(Bounded):
+class AbsolutePathLaws(Laws):
     """The same laws for absolute and drive-prefixed forms (`/…`, `C:/…`, `C:\\…`): normal form (`..` at the top stays
     at the top), separator-agnostic, JSON round trip, hash, and parent / append / basename as inverses."""
     target = 'bfg9000/platforms/basepath.py::BasePath.parent'
     properties = ('C12',)
     reason = PathLaws.reason
-    PREFIXES = ['/', 'C:/', 'C:\\']
+    PREFIXES = ['/', 'C:/', 'C:\\', '//server/share/', '\\\\server\\share\\']
 
     def cases(self):
         return ['posix', 'windows']
@@ -277,12 +291,13 @@ class AbsolutePathLaws(Bounded):
                 for t in _it.product(COMPS, repeat=n):
                     yield {'prefix': pre, 'comps': list(t)}
 
-    def native_check(self, case, raw):
+    def laws(self, case, raw):
         P = PosixPath if case == 'posix' else WindowsPath
         pre, comps = raw['prefix'], raw['comps']
         s = pre + '/'.join(comps)
-        if s.startswith('//') or s.startswith('\\\\'):
-            return None         # two leading separators start a UNC share name (`//server/share`): not this law set
+        unc = pre.replace('\\', '/').startswith('//')
+        if not unc and (s.startswith('//') or s.startswith('\\\\')):
+            return None         # an empty first component would turn the drive-less form into a UNC share name
         want = []
         for c in comps:
             if c in ('', '.'):
@@ -292,7 +307,7 @@ class AbsolutePathLaws(Bounded):
                     want.pop()
             else:
                 want.append(c)
-        top = 'C:/' if pre.startswith('C:') else '/'
+        top = 'C:/' if pre.startswith('C:') else ('//server/share/' if unc else '/')
         try:
             p = P(s, Root.srcdir)
         except ValueError as e:
@@ -304,6 +319,11 @@ class AbsolutePathLaws(Bounded):
         j = P.from_json(p.to_json())
         if j != p or j.directory != p.directory or hash(j) != hash(p):
             return self.fail(case, raw, 'json_round_trip', string=s, json=p.to_json(), back=repr(j))
+        # the same path below DESTDIR (an install location) is another path and keeps that through JSON
+        pd = P(s, Root.absolute, True)
+        jd = P.from_json(pd.to_json())
+        if jd != pd or not jd.destdir or pd == p:
+            return self.fail(case, raw, 'json_round_trip_keeps_the_destdir_flag', string=s, json=pd.to_json(), back=repr(jd))
         if want:
             try:
                 par = p.parent()
@@ -313,17 +333,28 @@ class AbsolutePathLaws(Bounded):
                 return self.fail(case, raw, 'parent_is_the_enclosing_directory', string=s, parent=par.suffix)
             if p.basename() != want[-1] or par.append(p.basename()) != p:
                 return self.fail(case, raw, 'parent_append_basename', string=s, parent=par.suffix, basename=p.basename())
+            if P(p.basename(), par) != p:
+                return self.fail(case, raw, 'relative_to_parent_is_the_path', string=s, got=P(p.basename(), par).suffix)
+        # `..` steps up one level and stops at the top of the drive / share; appending a name and stepping up is the identity
+        try:
+            up = p.append('..')
+            down = p.append('zz').append('..')
+        except ValueError as e:
+            return self.fail(case, raw, 'append_parent_reference_stays_on_the_drive', string=s, error=str(e))
+        if up.suffix != top + '/'.join(want[:-1]) or down.suffix != p.suffix or up.root != Root.absolute:
+            return self.fail(case, raw, 'append_parent_reference_stays_on_the_drive', string=s, up=up.suffix, down=down.suffix)
         return True
 
 
-class TreeFunctions(Bounded):
+class TreeFunctions(Laws):
     """commonprefix / uniquetrees over absolute paths, drive roots and several kinds of root: a true common ancestor
     (or None when there is none) and a minimal covering set."""
     target = 'bfg9000/path.py::uniquetrees'
     properties = ('C12',)
     reason = CommonPrefix.reason if False else 'min/max and sort over lists of component lists: runtime contract only'
 
-    POOL = [('/', 'absolute'), ('/a', 'absolute'), ('/a/b', 'absolute'), ('/c/d', 'absolute'), ('C:/', 'absolute'),
+    POOL = [('//s/m/a', 'absolute'), ('//s/m/b/c', 'absolute'), ('//s/x/a', 'absolute'),
+            ('/', 'absolute'), ('/a', 'absolute'), ('/a/b', 'absolute'), ('/c/d', 'absolute'), ('C:/', 'absolute'),
             ('C:/a', 'absolute'), ('D:/a', 'absolute'), ('a', 'srcdir'), ('a/b', 'srcdir'), ('a', 'builddir'),
             ('a/b', 'prefix'), ('', 'srcdir'), ('a.b', 'srcdir'), ('', 'prefix')]
 
@@ -336,13 +367,17 @@ class TreeFunctions(Bounded):
     def key(p):
         """(kind of root, components) with the top of an absolute tree as its first component"""
         s = p.suffix
-        if p.root == Root.absolute:
+        if p.root == Root.absolute and s.startswith('//'):
+            # a UNC share (`//server/share`) is the top of its tree, like a drive
+            parts = [b for b in s.split('/') if b]
+            bits = ['//' + '/'.join(parts[:2])] + parts[2:]
+        elif p.root == Root.absolute:
             bits = [b for b in s.split('/') if b] if not s.startswith('/') else [''] + [b for b in s.split('/') if b]
         else:
             bits = s.split('/') if s else []
         return (type(p.root).__name__, p.root.name), bits
 
-    def native_check(self, case, raw):
+    def laws(self, case, raw):
         roots = {'absolute': Root.absolute, 'srcdir': Root.srcdir, 'builddir': Root.builddir, 'prefix': InstallRoot.prefix}
         ps = [PosixPath(s, roots[r]) for s, r in raw['paths']]
         keys = [self.key(p) for p in ps]
